@@ -736,6 +736,14 @@ func (cs *Contracts) mergeExtensions() (*Contracts, error) {
 		if ext.Untainted {
 			base.Untainted = true
 		}
+		if ext.NoSafety {
+			base.NoSafety = true
+		}
+		for k, v := range ext.Options {
+			if k != "$id" {
+				base.Options[k] = v
+			}
+		}
 		if ext.ReturnsUntainted {
 			base.ReturnsUntainted = true
 		}
